@@ -48,16 +48,16 @@ Proof.
 Qed.
 
 Theorem compact_rel f :
-  (forall depth ls, val_rel (2 * length ls + 2) f (p_value f ls) (c_value None false f depth (ls ++ [0]))) /\
-  (forall depth ls, val_rel (2 * length ls + 3) f (p_members f ls) (c_members None false f depth (ls ++ [0]))) /\
-  (forall depth ls, val_rel (2 * length ls + 3) f (p_elements f ls) (c_elements None false f depth (ls ++ [0]))).
+  (forall d depth ls, val_rel (2 * length ls + 2) f (pg_value None allnum f d ls) (c_value None false f depth (ls ++ [0]))) /\
+  (forall d depth ls, val_rel (2 * length ls + 3) f (pg_members None allnum f d ls) (c_members None false f depth (ls ++ [0]))) /\
+  (forall d depth ls, val_rel (2 * length ls + 3) f (pg_elements None allnum f d ls) (c_elements None false f depth (ls ++ [0]))).
 Proof.
   induction f as [|f (IHv & IHm & IHe)].
   { split; [|split]; intros; cbn; right; (split; [reflexivity|lia]). }
-  pose proof (spec_shorter f) as (SHv & SHm & SHe).
+  pose proof (spec_shorter None allnum f) as (SHv & SHm & SHe).
   split; [|split].
   - (* value *)
-    intros depth ls. cbn [p_value c_value]. rewrite c_value_ws_sentinel.
+    intros d depth ls. cbn [pg_value c_value]. change (depth_ok None d) with true. cbn [negb]. rewrite c_value_ws_sentinel.
     pose proof (skip_ws_length ls) as L0.
     destruct (skip_ws ls) as [|c r] eqn:Es.
     { cbn. left. reflexivity. }
@@ -67,8 +67,8 @@ Proof.
       destruct (skip_ws r) as [|c1 r1] eqn:Er.
       - cbn [app]. destruct f; cbn; [right; split; [reflexivity|lia]|left; reflexivity].
       - cbn [app]. cbn [length] in L1. destruct (c1 =? 125); [reflexivity|].
-        specialize (IHm (S depth) (c1 :: r1)). cbn [app] in IHm. unfold val_rel in *.
-        destruct (p_members f (c1 :: r1)) as [[ts rest]|].
+        specialize (IHm (S d) (S depth) (c1 :: r1)). cbn [app] in IHm. unfold val_rel in *.
+        destruct (pg_members None allnum f (S d) (c1 :: r1)) as [[ts rest]|].
         + rewrite IHm. reflexivity.
         + useIH IHm. }
     destruct (N.eqb_spec c 125) as [E1|E1].
@@ -78,8 +78,8 @@ Proof.
       destruct (skip_ws r) as [|c1 r1] eqn:Er.
       - cbn [app]. destruct f as [|[|f']]; cbn; [right; split; [reflexivity|lia]|right; split; [reflexivity|lia]|left; reflexivity].
       - cbn [app]. cbn [length] in L1. destruct (c1 =? 93); [reflexivity|].
-        specialize (IHe (S depth) (c1 :: r1)). cbn [app] in IHe. unfold val_rel in *.
-        destruct (p_elements f (c1 :: r1)) as [[ts rest]|].
+        specialize (IHe (S d) (S depth) (c1 :: r1)). cbn [app] in IHe. unfold val_rel in *.
+        destruct (pg_elements None allnum f (S d) (c1 :: r1)) as [[ts rest]|].
         + rewrite IHe. reflexivity.
         + useIH IHe. }
     destruct (N.eqb_spec c 93) as [E3|E3].
@@ -93,7 +93,7 @@ Proof.
       assert (Hc : numchar_b c = true) by (unfold numchar_b; lia).
       pose proof (number_rel c r Hc) as R. cbn [app] in R. rewrite R.
       destruct (span numchar_b (c :: r)) as [num rest].
-      destruct (json_number num); [|left; reflexivity]. cbn. rewrite app_nil_r. reflexivity. }
+      unfold allnum. rewrite andb_true_r. destruct (json_number num); [|left; reflexivity]. cbn. rewrite app_nil_r. reflexivity. }
     change (isdig c) with (digit_b c). rewrite E5.
     destruct (N.eqb_spec c 116) as [E6|E6].
     { subst c. pose proof (literal_true r) as R. cbn [app] in R. rewrite R.
@@ -106,7 +106,7 @@ Proof.
       destruct (starts [117; 108; 108] r); [reflexivity|left; reflexivity]. }
     left. reflexivity.
   - (* members *)
-    intros depth ls. cbn [p_members c_members]. rewrite c_skip_ws_sentinel.
+    intros d depth ls. cbn [pg_members c_members]. rewrite c_skip_ws_sentinel.
     pose proof (c_string_rel (skip_ws ls)) as R. pose proof (skip_ws_length ls) as L0.
     destruct (skip_ws ls) as [|q r] eqn:Es.
     { rewrite R. left. reflexivity. }
@@ -119,34 +119,34 @@ Proof.
     destruct (skip_ws r1) as [|c r2] eqn:E1.
     { cbn. left. reflexivity. }
     cbn [app]. cbn [length] in L2. destruct (N.eqb_spec c 58) as [Ec|Ec]; cbn [negb]; [|left; reflexivity].
-    specialize (IHv depth r2). unfold val_rel in IHv |- *.
-    destruct (p_value f r2) as [[vt r3]|] eqn:Ev.
+    specialize (IHv d depth r2). unfold val_rel in IHv |- *.
+    destruct (pg_value None allnum f d r2) as [[vt r3]|] eqn:Ev.
     2:{ useIH IHv. }
-    pose proof (SHv _ _ _ Ev) as L3.
+    pose proof (SHv _ _ _ _ Ev) as L3.
     rewrite IHv. rewrite c_skip_ws_sentinel. pose proof (skip_ws_length r3) as L4.
     destruct (skip_ws r3) as [|c3 r4] eqn:E3.
     { cbn. left. reflexivity. }
     cbn [app]. cbn [length] in L4. destruct (N.eqb_spec c3 125) as [E5|E5].
     { cbn [nl colon app]. unfold render_compact. f_equal. f_equal. cbn [flat_map raw_tok]. rewrite flat_map_app. cbn [flat_map raw_tok app]. rewrite <- ?app_assoc. cbn [app]. rewrite ?app_nil_r. reflexivity. }
     destruct (N.eqb_spec c3 44) as [E6|E6]; [|left; reflexivity].
-    specialize (IHm depth r4). unfold val_rel in IHm.
-    destruct (p_members f r4) as [[ts rest]|].
+    specialize (IHm d depth r4). unfold val_rel in IHm.
+    destruct (pg_members None allnum f d r4) as [[ts rest]|].
     2:{ useIH IHm. }
     rewrite IHm. cbn [nl colon app]. unfold render_compact. f_equal. f_equal. cbn [flat_map raw_tok]. rewrite flat_map_app. cbn [flat_map raw_tok app]. rewrite <- ?app_assoc. cbn [app]. rewrite ?app_nil_r. reflexivity.
   - (* elements *)
-    intros depth ls. cbn [p_elements c_elements].
-    specialize (IHv depth ls). unfold val_rel in IHv |- *.
-    destruct (p_value f ls) as [[vt r1]|] eqn:Ev.
+    intros d depth ls. cbn [pg_elements c_elements].
+    specialize (IHv d depth ls). unfold val_rel in IHv |- *.
+    destruct (pg_value None allnum f d ls) as [[vt r1]|] eqn:Ev.
     2:{ useIH IHv. }
-    pose proof (SHv _ _ _ Ev) as L3.
+    pose proof (SHv _ _ _ _ Ev) as L3.
     rewrite IHv. rewrite c_skip_ws_sentinel. pose proof (skip_ws_length r1) as L4.
     destruct (skip_ws r1) as [|c r2] eqn:E1.
     { cbn. left. reflexivity. }
     cbn [app]. cbn [length] in L4. destruct (N.eqb_spec c 93) as [E5|E5].
     { cbn [nl app]. unfold render_compact. f_equal. f_equal. rewrite flat_map_app. cbn [flat_map raw_tok app]. rewrite <- ?app_assoc. cbn [app]. rewrite ?app_nil_r. reflexivity. }
     destruct (N.eqb_spec c 44) as [E6|E6]; [|left; reflexivity].
-    specialize (IHe depth r2). unfold val_rel in IHe.
-    destruct (p_elements f r2) as [[ts rest]|].
+    specialize (IHe d depth r2). unfold val_rel in IHe.
+    destruct (pg_elements None allnum f d r2) as [[ts rest]|].
     2:{ useIH IHe. }
     rewrite IHe. cbn [nl app]. unfold render_compact. f_equal. f_equal. rewrite flat_map_app. cbn [flat_map raw_tok app]. rewrite <- ?app_assoc. cbn [app]. rewrite ?app_nil_r. reflexivity.
 Qed.
@@ -168,13 +168,13 @@ Theorem compact_run_spec data :
   | None => CErr
   end.
 Proof.
-  unfold compact_run, run_value, parse_json, top_fuel.
+  unfold compact_run, run_value, parse_json, parse_g, top_fuel.
   destruct data as [|d0 dr] eqn:Ed.
   { reflexivity. }
   rewrite <- Ed. assert (Hne : data <> []) by (rewrite Ed; discriminate). clear Ed d0 dr.
   destruct (compact_rel (2 * length data + 4)) as (Hv & _ & _).
-  specialize (Hv 0%nat data). unfold val_rel in Hv.
-  destruct (p_value (2 * length data + 4) data) as [[ts rest]|].
+  specialize (Hv 0%nat 0%nat data). unfold val_rel in Hv.
+  destruct (pg_value None allnum (2 * length data + 4) 0 data) as [[ts rest]|].
   - destruct data as [|d0 dr]; [congruence|]. rewrite Hv. rewrite validate_end_all_ws.
     destruct (all_ws rest); reflexivity.
   - destruct data as [|d0 dr]; [congruence|].
